@@ -59,3 +59,9 @@ Theorem C14_failed_run_no_final : forall fexp c files d0 k,
   let d := dir_puts (dir_remove d0 is_purged) (firstn k (mr_writes_partial fexp c files)) in
   dir_get d "clusters.pkl" = None /\ dir_get d "cluster-centroids-packed.pkl" = None.
 Proof. exact failed_run_no_final. Qed.
+
+(* non-vacuity: a leftover directory with stale round files, a stale clusters.pkl and a foreign
+   file; the re-run succeeds, the foreign file survives, the stale round files are gone *)
+From BB Require Proofs.Compose.
+Example C14_nonvacuous := Compose.C14Demo.C14_nonvacuous.
+Example C14_instance_not_trivial := Compose.C14Demo.C14_instance_not_trivial.
